@@ -31,6 +31,9 @@ pub enum Plan {
     IdentOneTag,
     /// a fresh pseudo-random answer on every call (C05 only)
     Chaos,
+    /// position = id like `Ident` until `chaos_late(true)` is called, a fresh pseudo-random answer afterwards (C05:
+    /// broken hashing sets in on a table that was built lawfully, e.g. a tombstone-saturated one)
+    IdentThenChaos,
 }
 
 pub const LAWFUL_PLANS: [Plan; 13] = [
@@ -57,7 +60,7 @@ impl Plan {
         }
     }
     pub fn from_name(s: &str) -> Option<Plan> {
-        for p in LAWFUL_PLANS.iter().chain([Plan::Chaos].iter()) {
+        for p in LAWFUL_PLANS.iter().chain([Plan::Chaos, Plan::IdentThenChaos].iter()) {
             if p.name() == s {
                 return Some(*p);
             }
@@ -65,7 +68,7 @@ impl Plan {
         None
     }
     pub fn is_lawful(self) -> bool {
-        self != Plan::Chaos
+        self != Plan::Chaos && self != Plan::IdentThenChaos
     }
 }
 
@@ -93,6 +96,13 @@ pub fn plan_hash(plan: Plan, salt: u64, id: u64) -> u64 {
         Plan::Stride => compose(id.wrapping_mul(16), m >> 57),
         Plan::IdentOneTag => compose(id, salt >> 57),
         Plan::Chaos => chaos_u64(),
+        Plan::IdentThenChaos => {
+            if CHAOS_LATE.load(Ordering::Relaxed) {
+                chaos_u64()
+            } else {
+                compose(id, m >> 57)
+            }
+        }
     }
 }
 
@@ -100,6 +110,12 @@ pub fn plan_hash(plan: Plan, salt: u64, id: u64) -> u64 {
 
 static CHAOS: Mutex<Option<Rng>> = Mutex::new(None);
 static CHAOS_EQ: AtomicBool = AtomicBool::new(false);
+static CHAOS_LATE: AtomicBool = AtomicBool::new(false);
+
+/// Switches `Plan::IdentThenChaos` from lawful to chaotic hashing.
+pub fn chaos_late(on: bool) {
+    CHAOS_LATE.store(on, Ordering::SeqCst);
+}
 /// per-mille probability that Eq lies when chaos-eq is on
 static CHAOS_EQ_PERMILLE: AtomicU64 = AtomicU64::new(0);
 /// how many distinct hash values chaos hashing draws from (small => collisions and moves both happen)
@@ -113,6 +129,7 @@ pub fn chaos_seed(seed: u64, eq_permille: u64, palette: u64) {
 }
 pub fn chaos_off() {
     CHAOS_EQ.store(false, Ordering::SeqCst);
+    CHAOS_LATE.store(false, Ordering::SeqCst);
 }
 fn chaos_raw() -> u64 {
     let mut g = CHAOS.lock().unwrap_or_else(|p| p.into_inner());
